@@ -127,4 +127,27 @@ Canon(t) == LET vs == VarSeq(t, <<>>) IN [term |-> Rename(t, vs), nv |-> Len(vs)
 \* canonical image of a tuple of terms (shared numbering across the tuple)
 CanonSeq(ts) ==
   IF ts = <<>> THEN <<>> ELSE Canon(C("$", ts)).term.a
+
+(***************************************************************************)
+(* to_python: atoms to their names, "[]" to the empty list, integers to    *)
+(* ints, proper lists to lists, compound terms not named "." to            *)
+(* (name, argument list), unbound variables to None.  Anything else        *)
+(* (improper lists, "." with another arity) is unspecified.                *)
+(* JSON image: {"s":name} {"i":digits} {"l":[..]} {"f":name,"a":[..]}      *)
+(*             {"none":TRUE} {"unspec":TRUE}                               *)
+(***************************************************************************)
+PyUnspec == [unspec |-> TRUE]
+RECURSIVE ToPy(_)
+ToPy(t) ==
+  CASE t.t = "v" -> [none |-> TRUE]
+    [] t.t = "i" -> [i |-> t.n]
+    [] t.t = "a" -> IF t.n = "[]" THEN [l |-> <<>>] ELSE [s |-> t.n]
+    [] t.t = "c" ->
+         IF t.n = "."
+         THEN (IF Len(t.a) # 2 THEN PyUnspec
+               ELSE LET h == ToPy(t.a[1]) tl == ToPy(t.a[2]) IN
+                    IF "l" \in DOMAIN tl /\ "unspec" \notin DOMAIN h THEN [l |-> <<h>> \o tl.l] ELSE PyUnspec)
+         ELSE LET args == [i \in DOMAIN t.a |-> ToPy(t.a[i])] IN
+              IF \E i \in DOMAIN args : "unspec" \in DOMAIN args[i] THEN PyUnspec
+              ELSE [f |-> t.n, a |-> args]
 =============================================================================
